@@ -9,7 +9,10 @@ open Lean Einx.Driver Einx.Solve
 Request: `{"kind":"cse_trees","roots":[tree|null,…],"cse_concat":bool,"cse_in_brackets":bool}` (tree JSON as for
 `value_range`).  Answer: `{"ok":true,"out":[tree|null,…],"cands":[{"key":str,"occs":[[[root,path…],…],…]},…]}` or
 `{"ok":false,"error":msg}` when the model reaches one of the exceptions of the real code.
-`cse_check` (same request fields): `{"wf","used_ok","pairs_ok","check","events","used"}`. -/
+`cse_check` (same request fields): `{"wf","used_ok","pairs_ok","check","events","used","unique_ids"}` (`unique_ids`: the side condition of
+`cseTrees_order_independent_partial`, Props/C16Cse.lean).
+`cse_enum` (same fields + `"order":"reverse"|"rotate"|"insertion"`): `{"result":{"ok",…},"unique_ids","candidates"}` — the
+model with another enumeration of the dict. -/
 namespace Einx.Driver.CseTrees
 open Einx.Solve.CseT
 
@@ -51,7 +54,22 @@ def handle (j : Json) : R Json := do
     let nUsed := (evs.filter (fun e => match e with | .used _ _ _ _ => true | _ => false)).length
     pure (Json.mkObj [("wf", Json.bool (wfForest roots)), ("used_ok", Json.bool (evs.all usedOK)),
                       ("pairs_ok", Json.bool (evs.all (fun a => evs.all (fun b => pairOK a b)))),
-                      ("check", Json.bool (cseCheck opts roots)), ("events", jNat evs.length), ("used", jNat nUsed)])
+                      ("check", Json.bool (cseCheck opts roots)), ("events", jNat evs.length), ("used", jNat nUsed),
+                      ("unique_ids", Json.bool (uniqueIds (candidates opts roots)))])
+  | "cse_enum" =>
+    -- C16: the model with another enumeration of the dict `str_to_common_expr` (`order`: "reverse" | "rotate")
+    let roots ← parseRoots j
+    let opts ← parseOpts j
+    let enum : List Cand → List Cand ← match ← strF j "order" with
+      | "reverse" => pure List.reverse
+      | "rotate" => pure (fun l => l.drop 1 ++ l.take 1)
+      | "insertion" => pure id
+      | o => throw s!"unknown enumeration {o}"
+    let res : Json := match cseTreesEnum enum opts roots with
+      | .ok out => Json.mkObj [("ok", Json.bool true), ("out", rootsJson out)]
+      | .error e => Json.mkObj [("ok", Json.bool false), ("error", Json.str e)]
+    pure (Json.mkObj [("result", res), ("unique_ids", Json.bool (uniqueIds (candidates opts roots))),
+                      ("candidates", jNat (candidates opts roots).length)])
   | k => throw s!"unknown cse_trees kind {k}"
 
 end Einx.Driver.CseTrees
